@@ -346,7 +346,7 @@ impl Check for C16 {
         CheckMeta {
             property: "C16",
             level: "model_checking",
-            rule: "every table-building program over {route(p in 7 patterns), route_layer(fresh tag), merge(one of 5 sub-tables incl. nested merges and layers), add_rpc_service(3 names)} up to depth 3 (quick) / 4 (thorough) = states, x every request string over {/ a b * : . space é NUL} (plus long routes: a two-byte character at every byte offset 0..130, lengths around 2^6..2^16, bare and behind every wildcard prefix) up to length 4 plus prefix/suffix mutations of every registered pattern = evaluations, on the real Router against a reference matcher; tables that the router rejects at build time (documented conflict panic) are counted and skipped; distinct = distinct (table size, layered routes, any match)".into(),
+            rule: "every table-building program over {route(p in 7 patterns), route_layer(fresh tag), merge(one of 5 sub-tables incl. nested merges and layers), add_rpc_service(3 names)} up to depth 3 (quick) / 4 (thorough) = states, x every request string over {/ a b * : . space é NUL} (plus long routes: a two-byte character at every byte offset 0..130, lengths around 2^6..2^16, bare and behind every wildcard prefix) up to length 4 plus prefix/suffix mutations of every registered pattern = evaluations, on the real Router against a reference matcher; plus loom (harness/lockx routes): two threads building tables of 1-4 routes (with and without merge) at the same time, a scheduling point before every access of the shared route-id counter (hook H9), preemption bound 3 | 4, every path must be answered by its own service; tables that the router rejects at build time (documented conflict panic) are counted and skipped; distinct = distinct (table size, layered routes, any match)".into(),
             assumptions: vec!["overlapping patterns cannot coexist in one table (the router rejects them at build time), so the reference match is unique".into()],
             exhaustive: true,
         }
@@ -361,10 +361,16 @@ impl Check for C16 {
                 u.push(json!({"prefix": [i, j], "depth": tier.pick(3, 4), "len": 4, "on_death": "router-aborts-process"}));
             }
         }
+        // tables built on two threads at the same time (they share the route-id counter): loom
+        u.push(json!({"kind":"threads","tier":tier.as_str(),"subset":"routes"}));
         u
     }
 
     fn run_unit(&self, _tier: Tier, unit: &Value, out: &mut UnitResult) {
+        if unit["kind"] == "threads" {
+            super::c04::run_threads(unit, out);
+            return;
+        }
         let a = alphabet();
         let prefix: Vec<Op> = unit["prefix"].as_array().unwrap().iter().map(|i| a[i.as_u64().unwrap() as usize].clone()).collect();
         let depth = unit["depth"].as_u64().unwrap() as usize;
